@@ -218,10 +218,8 @@ func runC10(c *Ctx) {
 	rule7 := "O-7 the version byte read sees only non-empty writes"
 	okW := false
 	nW := 0
-	for _, ci := range callsIn(dec) {
-		if calleeName(ci) != "(io.Writer).Write" {
-			continue
-		}
+	for _, d := range deepCalls(dec, 2, "(io.Writer).Write") {
+		ci := d.In.(ssa.CallInstruction)
 		nW++
 		if cc, _, ok := callResult(ci.Common().Args[0]); ok && calleeName(cc) == "(*bufio.Scanner).Bytes" {
 			okW = true
